@@ -178,6 +178,8 @@ def _verify_one(args):
         verdicts = solve.discharge_objects(jobs, workers=inner_workers)
         _aggregate(res, jobs, verdicts)
         bad = [ob for ob in res.obligations if ob.kind in ("INV-init", "INV-pres") and ob.verdict in ("failed", "candidate")]
+        if _round == 0:
+            res0 = res
         if not bad or res.status != "ok":
             break
         first_round_bad = bad if _round == 0 else first_round_bad
@@ -201,6 +203,19 @@ def _verify_one(args):
         res.dropped = dropped
         # the refuted auxiliary obligations stay in the result (as failed) unless the proof was re-established
         still_failing = any(ob.verdict != "discharged" for ob in res.obligations)
+        if still_failing and res.status == "ok" and res0.status == "ok":
+            # blame precisely: the verdicts of the contract as written (first round), plus the property-bearing obligations
+            # (POST / GUARD) that fail once the refuted conjuncts are gone.  Safety and invariant obligations that fail only
+            # because an invariant they relied on was dropped are a cascade, not findings.
+            by0 = {ob.oid: ob for ob in res0.obligations}
+            for ob in res.obligations:
+                if ob.verdict in ("failed", "candidate") and ob.kind.startswith(("POST", "GUARD")) and not ob.oid.endswith("/index-nonneg") and ob.oid in by0 and by0[ob.oid].verdict == "discharged":
+                    ob.info = (ob.info + "; " if ob.info else "") + "fails once the refuted invariant conjunct(s) are dropped"
+                    by0[ob.oid] = ob
+            res0.obligations = list(by0.values())
+            res0.dropped = dropped
+            res0.seconds = res.seconds
+            return res0
         if still_failing:
             have = {ob.oid for ob in res.obligations}
             for oid, model, smt2, solver, secs in dropped:
